@@ -57,6 +57,21 @@ IsCons(x)   == x.t = "c" /\ x.n = CP(".") /\ Len(x.a) = 2
 RECURSIVE SeqOf(_)
 SeqOf(x) == IF IsCons(x) THEN <<x.a[1]>> \o SeqOf(x.a[2]) ELSE <<>>   \* inverse of LT on proper lists
 
+(* compact JSON image of a term, used when a vector is printed (a rendering, not part of the model): *)
+(* <<0, int>>, <<1, atom name>>, <<2, functor name, args>>, <<3, variable name>>, <<4, float bits>>,   *)
+(* <<5, elements>> for a proper list and <<6, elements, tail>> for any other '.'/2 chain             *)
+RECURSIVE Pk(_), PkList(_, _)
+Pk(x) ==
+  CASE x.t = "i" -> <<0, x.i>>
+    [] x.t = "a" -> <<1, x.n>>
+    [] x.t = "v" -> <<3, x.n>>
+    [] x.t = "f" -> <<4, x.n>>
+    [] x.t = "c" -> IF IsCons(x) THEN PkList(<<>>, x)
+                    ELSE <<2, x.n, [j \in 1..Len(x.a) |-> Pk(x.a[j])]>>
+PkList(acc, x) == IF IsCons(x) THEN PkList(Append(acc, Pk(x.a[1])), x.a[2])
+                  ELSE IF x = Nil THEN <<5, acc>> ELSE <<6, acc, Pk(x)>>
+PkSeq(s) == [j \in 1..Len(s) |-> Pk(s[j])]
+
 (* ------------------------------------------------------------------------------------ *)
 (* standard order of terms (property C13, restated): Var < Float < Integer < Atom <       *)
 (* Compound; numbers of one class by value; atoms by code points; compounds by arity,     *)
